@@ -44,6 +44,16 @@ def _rows(env, tag, rows):
             yield r
 
 
+def _rows_peek(env, tag, rows):
+    """Semantically the identity: looks at the first row, then passes every row on (iterates its argument twice)."""
+    _mark(env, tag)
+    first = next(iter(rows), None)
+    if first is not None:
+        yield first
+    for r in rows:
+        yield r
+
+
 def _package(env, tag, package):
     _mark(env, tag)
     package.pkg.descriptor['title'] = 'U'
@@ -53,7 +63,8 @@ def _package(env, tag, package):
 
 
 ROLE_IMPL = {'row_inplace': (_row_inplace, 'row'), 'row_new': (_row_new, 'row'), 'rows': (_rows, 'rows'),
-             'package': (_package, 'package')}
+             'package': (_package, 'package'), 'rows_peek': (_rows_peek, 'rows')}
+IDENTITY_LINKS = {'user:rows_peek:%s' % k for k in ('function', 'lambda', 'method', 'partial', 'object')}
 KINDS = ['function', 'lambda', 'method', 'partial', 'object']
 
 
@@ -216,7 +227,7 @@ SIGMA_FULL = list(BUILTINS) + list(USER) + list(NONLINKS)                       
 SIGMA_NOKIND = list(BUILTINS) + ['user:%s:function' % r for r in ROLE_IMPL]     # "Sigma37"
 SIGMA_ROW = ['add_field', 'delete_fields', 'rename_fields', 'filter_rows', 'set_type', 'unpivot', 'duplicate',
              'concatenate', 'sort_rows', 'user:row_inplace:function', 'user:rows:function',
-             'user:package:function', 'gen150', 'concatenate_r1r2']                                    # "Sigma12" + a one-shot generator source
+             'user:package:function', 'gen150', 'concatenate_r1r2', 'user:rows_peek:function']                                    # "Sigma12" + a one-shot generator source
 FILE_WRITERS = {'dump_to_path', 'dump_to_path_json', 'stream', 'checkpoint'}
 UNORDERED_SYMS = set()
 
@@ -492,6 +503,8 @@ def stepwise(init, path, memo=None):
                 legit.add('u%d' % (i + 1))       # a row function legitimately never runs when no row reaches it
             else:
                 return {'kind': 'skipped', 'at': i, 'missing': r['missing']}
+        if sym in IDENTITY_LINKS and state_diff(r['res'][1], state):
+            return {'kind': 'identity-broken', 'at': i, 'diff': state_diff(r['res'][1], state)}
         state = r['res'][1]
         tree.update(r['tree'])
         log.extend(r['log'])
@@ -521,6 +534,10 @@ def check_path(inp, path, memo=None, variants=False):
         viol.append(('skipped-link', 'Flow(%s) returned normally but user link(s) %s never ran'
                      % (', '.join(path), lz['missing'])))
         return viol, 'skipped', None
+    if sw['kind'] == 'identity-broken':
+        viol.append(('identity-link', 'Flow(..., %s): a rows-function that passes every row on (after peeking at the first) '
+                     'changed the stream: %s' % (path[sw['at']], sw['diff'])))
+        return viol, 'differs', None
     if sw['kind'] == 'skipped':
         viol.append(('skipped-link', 'stepwise Flow(..., %s) returned normally but the user link never ran'
                      % path[sw['at']]))
